@@ -90,7 +90,7 @@ Consume ==
                       "DRIFT", "engine", line)
           /\ r.ev = "tick" =>
                 Check(\A m \in DOMAIN r.sts : r.sts[m] = Tick(prev.sts[m], r.d), "DRIFT", "tick", line)
-          /\ r.ev \notin CacheOps \cup InvOps \cup {"tick", "stats_get", "stats_reset"} =>
+          /\ r.ev \notin CacheOps \cup InvOps \cup {"tick", "stats_get", "stats_reset", "pend", "drop", "hang"} =>
                 Check(FALSE, "DRIFT", "unknown-event", line)
           /\ gs' = GsNext(r, metas, gs, r.sts)
           /\ xs' = XsNext(r, cfgs, metas, gs, xs, usedK, prev.sts)
